@@ -47,14 +47,19 @@ def item_event(item: Sequence[Any], corr: int) -> Dict[str, Any]:
     return kineto.kernel(name, EPOCH + s, e - s, stream, corr)
 
 
-def events_for(items: Sequence[Sequence[Any]], with_launch: bool = True) -> List[Dict[str, Any]]:
-    """entry 0 = a host operator at EPOCH; then per item (launch call,) activity."""
+def events_for(items: Sequence[Sequence[Any]], with_launch: bool = True, no_corr: bool = False) -> List[Dict[str, Any]]:
+    """entry 0 = a host operator at EPOCH; then per item (launch call,) activity.
+    no_corr: the activities carry no correlation id at all (an optional field; nothing launches them in the file)"""
     evs = [kineto.cpu_op("aten::root", EPOCH, 1)]
     corr = 10
     for it in items:
-        if with_launch:
+        if with_launch and not no_corr:
             evs.append(kineto.runtime("cudaLaunchKernel", EPOCH, 1, corr))
-        evs.append(item_event(it, corr))
+        e = item_event(it, corr)
+        if no_corr:
+            e["args"].pop("correlation", None)
+            e["args"].pop("External id", None)
+        evs.append(e)
         corr += 1
     return evs
 
